@@ -72,6 +72,8 @@ def _b(v):
         return z3.BoolVal(v)
     if isinstance(v, z3.BoolRef):
         return v
+    if type(v).__module__ == "numpy" and type(v).__name__ in ("bool", "bool_"):
+        return z3.BoolVal(bool(v))
     raise Unsupported(f"cannot use {type(v).__name__} as a boolean term")
 
 
